@@ -64,9 +64,11 @@ structure Defects where
   summaryFirstEntityOnly : Bool
 deriving Repr, DecidableEq
 
+/-- the code as it is. `oldDayUnmarked` (#13) and `syncDeletionLocalDayUnmarked` were fixed in /repo
+    (commits 8123d04, 1a9cbe6) and are off; their witnesses and replays stay as regression cases. -/
 def Defects.asImplemented : Defects :=
-  { historySeedDropped := true, entityNotCompared := true, emptyDayRow := true, oldDayUnmarked := true,
-    refDeletionUnmarked := true, syncDeletionLocalDayUnmarked := true, ingestIgnoresTombstones := true,
+  { historySeedDropped := true, entityNotCompared := true, emptyDayRow := true, oldDayUnmarked := false,
+    refDeletionUnmarked := true, syncDeletionLocalDayUnmarked := false, ingestIgnoresTombstones := true,
     rightDependsOnLocalAuthor := true, edgesOnlyForFetchedRows := true, syncDeletionKeepsEdges := true,
     deletionBatchKeyedById := true, lazyScan := true,
     syncDeletionRoomScoped := true, summaryFirstEntityOnly := true }
